@@ -5,6 +5,14 @@ import "time"
 const m = time.Minute
 
 var specs = []Spec{
+	{ID: "C02", Level: "exploration", MinDistinct: 50, Engines: []Engine{
+		{Name: "seq", Pkg: "./mon/c02", Procs: 1},
+		{Name: "coop", Pkg: "./mon/chainco", Env: []string{"VERIF_PROP=C02"}},
+	}},
+	{ID: "C04", Level: "exploration", MinDistinct: 50, Engines: []Engine{
+		{Name: "seq", Pkg: "./mon/c04", Procs: 1},
+		{Name: "coop", Pkg: "./mon/chainco", Env: []string{"VERIF_PROP=C04"}},
+	}},
 	{ID: "C08", Level: "exploration", MinDistinct: 50, Engines: []Engine{
 		{Name: "seq", Pkg: "./mon/c08", Procs: 1},
 	}},
